@@ -64,6 +64,8 @@ CLASSIFIER_SPEC = [
     ("2022-03-14", "date", False), ("1 - 1", "integer", True),
     # a positional predicate makes a path an expression (it is not literal text), as the classifier's contract says
     ("../q1[1]", "text", True), ("item[2]", "text", True), ("/data/r[position() = 1]/q", "text", True),
+    # xsd:time / xsd:dateTime literals with fractional seconds and a zone offset are literals
+    ("12:30:00.123+01:00", "time", False), ("10:30:00.5", "time", False), ("2022-03-14T10:30:00.5Z", "dateTime", False), ("2022-03-14T10:30:00.25-03:00", "dateTime", False),
     # comparison / boolean words and markup characters in a literal text are just text
     ("a < b", "text", False), ("<none>", "text", False), ("k=v", "text", False), ("R&D <b>x</b> ]]>", "text", False), ("this and that", "text", False), ("yes or no", "text", False),
 ]
